@@ -940,3 +940,190 @@ def c06_chain(R):
                 """, op="/" if second == "DIV" else "<", a=a, b=b, c=c)
 
         verify(R, "C06.sem.chain", GW + "::GenerateWasmVisitor.v_BinaryInstruction", run_chain, replay_chain, label=f"MUL;{second}")
+
+
+def _wasm_split(data):
+    """Minimal decoder of an emitted module: {section id: payload}, and from them the function signatures and the code bodies."""
+    def u(pos):
+        v = 0
+        k = 0
+        while True:
+            b = data[pos]
+            pos += 1
+            v |= (b & 0x7F) << (7 * k)
+            k += 1
+            if not b & 0x80:
+                return v, pos
+    assert data[:8] == b"\0asm\x01\0\0\0"
+    pos = 8
+    secs = {}
+    while pos < len(data):
+        sid = data[pos]
+        size, pos = u(pos + 1)
+        secs[sid] = (pos, pos + size)
+        pos += size
+    types = []
+    if 1 in secs:
+        p, _e = secs[1]
+        n, p = u(p)
+        for _ in range(n):
+            assert data[p] == 0x60
+            na, p = u(p + 1)
+            args = bytes(data[p:p + na])
+            p += na
+            nr, p = u(p)
+            res = bytes(data[p:p + nr])
+            p += nr
+            types.append((args, res))
+    sigs = []
+    if 3 in secs:
+        p, _e = secs[3]
+        n, p = u(p)
+        for _ in range(n):
+            ti, p = u(p)
+            sigs.append(types[ti])
+    bodies = []
+    if 10 in secs:
+        p, _e = secs[10]
+        n, p = u(p)
+        for _ in range(n):
+            sz, p = u(p)
+            bodies.append(bytes(data[p:p + sz]))
+            p += sz
+    exports = {}
+    if 7 in secs:
+        p, _e = secs[7]
+        n, p = u(p)
+        for _ in range(n):
+            ln, p = u(p)
+            nm = bytes(data[p:p + ln]).decode("utf-8", "replace")
+            p += ln
+            kind = data[p]
+            idx, p = u(p + 1)
+            exports[nm] = (kind, idx)
+    return sigs, bodies, exports
+
+
+_INDEP_FUNCS = [
+    ("g1", "int", "int", "return (a + 5);"), ("g2", "int", "int", "return (a + 7);"), ("g3", "int", "int", "return ((a * b) - 3);"),
+    ("g4", "int", "int", "return (a < 9);"), ("g5", "int", "int", "return (a == 7);"), ("g6", "float", "float", "return (a * b);"),
+    ("g7", "int", "int", "return 11;"), ("g8", "int", "int", "return (a / 2);"), ("g9", "int", "void", ""),
+]
+
+
+@family("C06.functions-independent", props=["C06", "C07"], functions=[GW + "::GenerateWasmVisitor.v_Function", GW + "::GenerateWasmVisitor.__PushValueOntoStack", GW + "::GenerateWasmVisitor.Context.OnEnterFunction",
+                                                                      WA + "::Module.AddFunctionType", WA + "::Module.AddCode"],
+        assumptions=["function shapes enumerated: 9 functions of the backend's subset (constants that share a position but not a value, comparisons, a float function, a constant function, a void function), "
+                     "all ordered pairs and two triples in one module, with and without optimisation; the bodies are cut out of the emitted binary by a decoder of mine",
+                     "a body that differs from the stand-alone one is only a failure if wasmtime (when importable) shows it disagreeing with the VM on the input grid; without wasmtime it is undecided"])
+def c06_functions_independent(R):
+    """The code emitted for a function depends on that function only: in a module of several functions every function has the signature and
+    (modulo what wasmtime shows to be equivalent) the body it has when it is compiled alone -- so C06.sem, proved per function, carries over to
+    modules.  State of the generator that survives from one function to the next (memo tables, counters, the stack picture) breaks this."""
+    import io, contextlib, itertools
+    from nsl import Compiler, LinearIR, VM
+    try:
+        import wasmtime
+    except Exception:
+        wasmtime = None
+
+    def text(fn):
+        name, pt, rt, body = fn
+        return f"export function {name}({pt} a, {pt} b) -> {rt} {{ {body} }}"
+
+    def build(fns, opt):
+        src = "\n".join(text(f) for f in fns)
+        with contextlib.redirect_stdout(io.StringIO()):
+            r = Compiler.Compiler().Compile(src, {"wasm": True, "optimize": opt})
+        out = io.BytesIO()
+        r.WasmModule.WriteTo(out)
+        return src, r, out.getvalue()
+
+    grid = [(-3, 2), (0, 0), (7, 5), (9, 7), (2147483647, 1)]
+
+    def agrees(src, r, data, name, pt):
+        lk = LinearIR.Linker()
+        lk.AddModule(r.IRModule)
+        vm = VM.VirtualMachine(lk.Link())
+        st = wasmtime.Store()
+        inst = wasmtime.Instance(st, wasmtime.Module(st.engine, data), [])
+        fn = inst.exports(st)[name]
+        for a, b in grid:
+            if pt == "float":
+                a, b = float(a % 100), float(b)
+            want = vm.Invoke(name, a=a, b=b)
+            got = fn(st, a, b)
+            if isinstance(want, int) and not isinstance(want, bool):
+                want = ((want + 2 ** 31) % 2 ** 32) - 2 ** 31
+            if got != want and not (isinstance(want, float) and isinstance(got, float) and abs(got - want) <= 1e-6 * max(1.0, abs(want))):
+                return f"{name}({a}, {b}): VM {want}, wasm {got}"
+        return None
+
+    for opt in (False, True):
+        alone = {}
+        for f in _INDEP_FUNCS:
+            src, r, data = build([f], opt)
+            sigs, bodies, exports = _wasm_split(data)
+            alone[f[0]] = (sigs[0], bodies[0])
+        combos = [list(p) for p in itertools.permutations(_INDEP_FUNCS, 2)] + [[_INDEP_FUNCS[0], _INDEP_FUNCS[1], _INDEP_FUNCS[6]], [_INDEP_FUNCS[8], _INDEP_FUNCS[3], _INDEP_FUNCS[5]]]
+        bad, und = [], []
+        n = 0
+        for fns in combos:
+            n += 1
+            try:
+                src, r, data = build(fns, opt)
+                sigs, bodies, exports = _wasm_split(data)
+            except BaseException as e:
+                bad.append((" + ".join(f[0] for f in fns), f"functions that compile alone are refused / undecodable together: {type(e).__name__}: {str(e)[:100]}", "\n".join(text(f) for f in fns)))
+                continue
+            for f in fns:
+                kind_idx = exports.get(f[0])
+                if kind_idx is None or kind_idx[0] != 0 or kind_idx[1] >= len(bodies):
+                    bad.append((" + ".join(g[0] for g in fns), f"no function export `{f[0]}` with a body", src))
+                    continue
+                k = kind_idx[1]
+                if sigs[k] != alone[f[0]][0]:
+                    bad.append((" + ".join(g[0] for g in fns), f"`{f[0]}` has signature {sigs[k]} in the module, {alone[f[0]][0]} alone", src))
+                elif bodies[k] != alone[f[0]][1]:
+                    if wasmtime is None:
+                        und.append((" + ".join(g[0] for g in fns), f"`{f[0]}`: body {bodies[k].hex()} in the module, {alone[f[0]][1].hex()} alone; no wasmtime to compare behaviour", src))
+                    else:
+                        try:
+                            why = agrees(src, r, data, f[0], f[1])
+                        except BaseException as e:
+                            why = f"module does not instantiate / run: {type(e).__name__}: {str(e)[:100]}"
+                        if why:
+                            bad.append((" + ".join(g[0] for g in fns), f"`{f[0]}`: body {bodies[k].hex()} in the module, {alone[f[0]][1].hex()} alone, and {why}", src))
+        for combo, why, src in bad[:12]:
+            R.check(f"C06.functions-independent[{combo},{'opt' if opt else 'plain'}]", GW + "::GenerateWasmVisitor.v_Function", False, detail=f"{why}\n{src}",
+                    replay=script("""
+                        import io, contextlib
+                        from nsl import Compiler, LinearIR, VM
+                        import wasmtime
+                        src = {{src}}; opt = {{opt}}
+                        with contextlib.redirect_stdout(io.StringIO()):
+                            r = Compiler.Compiler().Compile(src, {'wasm': True, 'optimize': opt})
+                        out = io.BytesIO(); r.WasmModule.WriteTo(out)
+                        lk = LinearIR.Linker(); lk.AddModule(r.IRModule); vm = VM.VirtualMachine(lk.Link())
+                        try:
+                            st = wasmtime.Store(); inst = wasmtime.Instance(st, wasmtime.Module(st.engine, out.getvalue()), [])
+                        except Exception as e:
+                            print(src); print('invalid module:', str(e)[:200]); print('REPLAY-CONFIRMED'); raise SystemExit
+                        for name in [l.split('(')[0].split()[-1] for l in src.splitlines()]:
+                            isf = ('function ' + name + '(float') in src
+                            for a, b in ((-3, 2), (0, 0), (7, 5), (9, 7)):
+                                if isf: a, b = float(a), float(b)
+                                want = vm.Invoke(name, a=a, b=b)
+                                try:
+                                    got = inst.exports(st)[name](st, a, b)
+                                except Exception as e:
+                                    got = 'error ' + str(e)[:80]
+                                if got != want and not (isinstance(want, float) and isinstance(got, float) and abs(got - want) < 1e-5):
+                                    print(src); print(name, (a, b), 'VM', want, 'wasm', got); print('REPLAY-CONFIRMED'); raise SystemExit
+                        print('agree')
+                        """, src=src, opt=opt))
+        for combo, why, src in und[:5]:
+            R.undecided(f"C06.functions-independent[{combo},{'opt' if opt else 'plain'}]", GW + "::GenerateWasmVisitor.v_Function", f"{why}\n{src}")
+        if not bad and not und:
+            for fns in combos:
+                R.check(f"C06.functions-independent[{' + '.join(f[0] for f in fns)},{'opt' if opt else 'plain'}]", GW + "::GenerateWasmVisitor.v_Function", True)
